@@ -389,7 +389,9 @@ func (rs *s3ClientStorage) HeadObject(ctx context.Context, bucketName storage.Bu
 		return nil, storage.ErrNoSuchBucket
 	}
 	if err != nil {
-		return nil, err
+		// Endpoints that report an error code for HEAD (NoSuchKey, NoSuchBucket,
+		// PreconditionFailed) get the matching storage error.
+		return nil, translateS3CopyError(err)
 	}
 	var userMetadata map[string]string
 	if len(headObjectResult.Metadata) > 0 {
@@ -472,7 +474,7 @@ func (rs *s3ClientStorage) GetObject(ctx context.Context, bucketName storage.Buc
 			for _, r := range readers {
 				r.Close()
 			}
-			return nil, nil, err
+			return nil, nil, translateS3CopyError(err)
 		}
 		readers = append(readers, getObjectResult.Body)
 	}
@@ -580,6 +582,13 @@ func (rs *s3ClientStorage) PutObject(ctx context.Context, bucketName storage.Buc
 		input.WebsiteRedirectLocation = opts.Metadata.WebsiteRedirectLocation
 		input.Metadata = opts.Metadata.UserMetadata
 	}
+	if opts != nil && len(opts.Tags) > 0 {
+		tagging := url.Values{}
+		for tagKey, tagValue := range opts.Tags {
+			tagging.Set(tagKey, tagValue)
+		}
+		input.Tagging = aws.String(tagging.Encode())
+	}
 	if opts != nil && opts.StorageClass != nil {
 		input.StorageClass = types.StorageClass(*opts.StorageClass)
 	}
@@ -593,10 +602,14 @@ func (rs *s3ClientStorage) PutObject(ctx context.Context, bucketName storage.Buc
 		if errors.As(err, &apiErr) && apiErr.ErrorCode() == "PreconditionFailed" {
 			return nil, storage.ErrPreconditionFailed
 		}
+		if errors.As(err, &apiErr) && apiErr.ErrorCode() == "NoSuchBucket" {
+			return nil, storage.ErrNoSuchBucket
+		}
 		return nil, err
 	}
 
 	return &storage.PutObjectResult{
+		VersionID:         putObjectResult.VersionId,
 		ETag:              putObjectResult.ETag,
 		ChecksumCRC32:     putObjectResult.ChecksumCRC32,
 		ChecksumCRC32C:    putObjectResult.ChecksumCRC32C,
@@ -1062,16 +1075,16 @@ func (rs *s3ClientStorage) ListMultipartUploads(ctx context.Context, bucketName 
 	}, listMultipartUploadsResult.CommonPrefixes)
 	return &storage.ListMultipartUploadsResult{
 		BucketName:         storage.MustNewBucketName(*listMultipartUploadsResult.Bucket),
-		KeyMarker:          *listMultipartUploadsResult.KeyMarker,
-		UploadIdMarker:     *listMultipartUploadsResult.UploadIdMarker,
-		Prefix:             *listMultipartUploadsResult.Prefix,
-		Delimiter:          *listMultipartUploadsResult.Delimiter,
-		NextKeyMarker:      *listMultipartUploadsResult.NextKeyMarker,
-		NextUploadIdMarker: *listMultipartUploadsResult.NextUploadIdMarker,
-		MaxUploads:         *listMultipartUploadsResult.MaxUploads,
+		KeyMarker:          aws.ToString(listMultipartUploadsResult.KeyMarker),
+		UploadIdMarker:     aws.ToString(listMultipartUploadsResult.UploadIdMarker),
+		Prefix:             aws.ToString(listMultipartUploadsResult.Prefix),
+		Delimiter:          aws.ToString(listMultipartUploadsResult.Delimiter),
+		NextKeyMarker:      aws.ToString(listMultipartUploadsResult.NextKeyMarker),
+		NextUploadIdMarker: aws.ToString(listMultipartUploadsResult.NextUploadIdMarker),
+		MaxUploads:         aws.ToInt32(listMultipartUploadsResult.MaxUploads),
 		CommonPrefixes:     commonPrefixes,
 		Uploads:            uploads,
-		IsTruncated:        *listMultipartUploadsResult.IsTruncated,
+		IsTruncated:        aws.ToBool(listMultipartUploadsResult.IsTruncated),
 	}, nil
 }
 
